@@ -188,6 +188,25 @@ std::vector<Sub> vh_subs() {
     };
     subs.push_back(s);
   }
+  // ---------------- the same p at two dimensions in a row (a map cached on p alone, or state left by the first call, shows only then)
+  {
+    Sub s;
+    s.name = "sequence";
+    s.fields = {{"k1", 0, 14}, {"k2", 0, 14}, {"op", 0, 2}, {"pmode", 0, 3}, {"pj", 0, 17}, {"pu", 0, INT64_MAX - 1}, {"neg", 0, 1}, {"seed", 0, INT64_MAX - 1}};
+    s.run = [](const Vals& v, Ctx& c) {
+      const uint64_t k1 = v[0], k2 = v[1];
+      const int op = (int)v[2];
+      const int64_t p = make_p((int)v[3], k1, v[4], (uint64_t)v[5], (int)v[6], op == AUT);
+      classify(c, k2, p, op);
+      c.cls("sequence");
+      if (k1 != k2) c.cls("sequence:different-N-same-p");
+      c.notef("%s with p=%lld at nn=%llu and then at nn=%llu", opname(op), (long long)p, 1ull << k1, 1ull << k2);
+      check_kernels(c, k1, p, op, 1, (uint64_t)v[7]);
+      if (c.failed()) return;
+      check_kernels(c, k2, p, op, 0, (uint64_t)v[7] + 1);
+    };
+    subs.push_back(s);
+  }
   // ---------------- composition laws
   {
     Sub s;
